@@ -238,6 +238,9 @@ class Host:
     def freadfault(self):
         return self.cmd("FREADFAULT")
 
+    def freadshort(self, n):
+        return self.cmd("FREADSHORT %d" % n)
+
     def eof(self):
         return self.cmd("EOF")
 
